@@ -21,7 +21,7 @@ SPEC = dict(
     assumptions=["expected message = template with placeholders replaced textually (own implementation)",
                  "templates contain no braces other than documented placeholders; OLD/NEW occur as separate words",
                  "real git: only messages that git's own whitespace/comment clean-up leaves unchanged are read back"],
-    required=["real_git_leading_dash_paths", "real_git_pathspec_neighbours", "real_git_push_runs", "real_git_push_from_branch_tracking_a_local_branch", "real_git_push_with_column_ui_always", "hg_runs_with_blank_in_tmpdir", "real_git_push_to_tracked_remote_not_named_origin", "fake_git_runs", "fake_hg_runs", "real_git_runs", "k12_evaluations", "class:squote", "class:dquote",
+    required=["real_git_leading_dash_paths", "real_git_pathspec_neighbours", "real_git_push_runs", "real_git_push_from_branch_tracking_a_local_branch", "real_git_push_with_column_ui_always", "hg_runs_with_blank_in_tmpdir", "real_git_push_with_branch_named_like_the_new_tag", "real_git_push_to_tracked_remote_not_named_origin", "fake_git_runs", "fake_hg_runs", "real_git_runs", "k12_evaluations", "class:squote", "class:dquote",
               "class:backslash", "class:newline", "class:leading-dash", "class:dollar", "class:backtick",
               "hostile_paths_checked", "templates_from_config", "config_templates_with_OLD_NEW_words",
               "templates_from_setup_cfg", "ini_templates_with_percent", "empty_tag_message_from_config"],
@@ -391,6 +391,11 @@ def run_real(ctx, case):
                 git(d, "branch", "dev")
                 git(d, "config", "column.ui", "always")
                 ctx.count("real_git_push_with_column_ui_always")
+            if R.random() < 0.3:
+                # a branch that is called like the version about to be released (a maintenance branch): the tag name
+                # handed to `push` must still name the tag, and only the tag
+                git(d, "branch", NEW)
+                ctx.count("real_git_push_with_branch_named_like_the_new_tag")
             pre = R.choice(["[ci/skip] ", "[release/NEW] ", "[x/y] ", ""])
             cm = pre + cm
             want_cm = expand(cm, OLD, NEW, OLD_PEP, NEW_PEP)
@@ -412,7 +417,8 @@ def run_real(ctx, case):
             crash = res.crash or ""
             pushes = [e for e in res.errors() if "'push'" in e]
             ctx.violation("value_split_after_formatting" if ("quotation" in crash or "escaped character" in crash)
-                          else "commit_message_read_as_upstream_of_branch" if (remote and pushes and "origin" not in pushes[0])
+                          else "commit_message_read_as_upstream_of_branch" if (remote and pushes and not any(
+                              f"'{x}'" in pushes[0] for x in (remote, "origin", "fork")))
                           else "other:real_git_update_fails", f"{args} paths={names}: exit {res.exit_code} "
                           f"{crash[:200] or res.errors()[-2:]} {res.stdout[-200:]}", case=case)
             return
